@@ -118,3 +118,28 @@ Definition serve_sdr (recs : list (N * bytes)) : sdr_server :=
     | Some (data, next) => Some (next, firstn (N.to_nat len) (skipn (N.to_nat off) data))
     | None => None
     end.
+
+(* ---------- C08: decode, re-serialise, decode again ---------- *)
+Definition rt_generic {L} (dec : L -> bytes -> res L) (zero : L) (show : L -> list tok)
+           (ser : L -> res bytes) (bs : bytes) : option (res (bytes * list tok * option (list tok))) :=
+  match dec zero bs with
+  | Ok v => Some (match ser v with
+                  | Ok out => Ok (out, show v, match dec zero out with Ok v2 => Some (show v2) | _ => None end)
+                  | Err => Err | Fault => Fault end)
+  | Err => None
+  | Fault => Some Fault
+  end.
+Definition rt_message := rt_generic decode_message message_zero show_message
+  (fun m => do '(_, out) <- ser_message m (m_payload m); Ok out).
+Definition rt_v1session := rt_generic decode_v1session v1session_zero show_v1session
+  (fun v => do '(_, out) <- ser_v1session v (v1_payload v); Ok out).
+Definition rt_v2session (sign : bytes -> bytes) := rt_generic (decode_v2session sign) v2session_zero show_v2session
+  (fun v => do '(_, out) <- ser_v2session sign v (v2_payload v); Ok out).
+Definition rt_rakp1 := rt_generic decode_rakp1 rakp1_zero show_rakp1 (fun v => ser_rakp1 v []).
+(* AES: the re-serialisation uses the IV the implementation drew *)
+Definition rt_aes (key iv : bytes) (bs : bytes) : option (res (bytes * bytes)) :=
+  match decode_aescbc (aes128_decrypt_block key) aescbc_zero bs with
+  | Ok a => Some (do out <- ser_aescbc (aes128_encrypt_block key) iv (ae_payload a); Ok (out, ae_payload a))
+  | Err => None
+  | Fault => Some Fault
+  end.
